@@ -5,17 +5,19 @@
    Normal:   angles in 1e-8 rad, length error in 1e-9
    Explicit: obs = <<component, input id, output id>> for every decoded coordinate of a two-tile scenario          *)
 EXTENDS TraceBase
-CheckQuant(r) == (r.eok /\ r.dok /\ r.n > 0) =>
+\* what was encoded successfully decodes (also with an unrelated attribute's transform skipped), and to the same bits either way
+DecodesOK(r) == r.eok => (r.dok /\ r.other_skip_ok /\ r.other_skip_same)
+CheckQuant(r) == DecodesOK(r) /\ ((r.eok /\ r.dok /\ r.n > 0) =>
     /\ r.nonfinite = 0
     /\ r.worst_err_u <= r.half_u + r.allow_u          \* at most half a step (+ float32 allowance)
     /\ r.worst_box_u <= r.allow_u                     \* never leaves the box by more than the allowance
-    /\ r.bits_ok
+    /\ r.bits_ok)
 \* inputs with L1 norm <= 1e-6 are reported separately (tiny_inputs / worst_angle_tiny_u) so that they can be classified
-CheckNormal(r) == (r.eok /\ r.dok /\ r.n > 0) =>
+CheckNormal(r) == (r.eok => r.dok) /\ ((r.eok /\ r.dok /\ r.n > 0) =>
     /\ r.nonfinite = 0
     /\ r.coord_oob = 0
     /\ r.worst_len_ppb <= 1000                        \* | |n'| - 1 | <= 1e-6
-    /\ r.worst_angle_u <= r.bound_u
+    /\ r.worst_angle_u <= r.bound_u)
 CheckNormalTiny(r) == (r.eok /\ r.dok /\ r.n > 0) => r.worst_angle_tiny_u <= r.bound_u
 FunDep(obs) == \A a \in 1..Len(obs) : \A b \in 1..Len(obs) :
                   (obs[a][1] = obs[b][1] /\ obs[a][2] = obs[b][2]) => obs[a][3] = obs[b][3]
